@@ -1539,8 +1539,17 @@ class Interp:
             if obj.cls.module.name.startswith('contracts'):
                 raise ShapeOutOfDate(f'the stub class {obj.cls.name} of a contract does not model attribute {attr!r}: the code uses the stubbed object in a new way')
             if not obj.fresh and self._set_by_constructor(obj.cls, attr):
-                # an input object of a contract that does not have an attribute the (current) constructor sets: the contract's
-                # input shape is out of date, not the code under verification
+                # an input object of a contract that does not have an attribute the (current) constructor sets.  When the
+                # constructor initialises it with a constant (None, a number, a string, an empty container), the input object is
+                # completed with that initial value (S-ctor-default: the state a new object has; what calls leave behind in such
+                # an attribute is the subject of the two-call history lemmas).  Otherwise the contract's input shape is out of
+                # date, not the code under verification
+                init = self._ctor_constant(obj.cls, attr)
+                if init is not None:
+                    value = init()
+                    obj.fields[attr] = value
+                    self.inlined.add(f'(assumption) S-ctor-default: {obj.cls.name}.{attr} is unknown to the contract; taken from the constructor')
+                    return value
                 raise ShapeOutOfDate(f'the input shape of the contract lacks attribute {attr!r}, which {obj.cls.name}.__init__ sets')
             self.raise_py('AttributeError')
         if isinstance(obj, ClassInfo):
@@ -2194,6 +2203,36 @@ class Interp:
                 if isinstance(n, ast.Attribute) and isinstance(n.ctx, ast.Store) and n.attr == attr and isinstance(n.value, ast.Name) and n.value.id == 'self':
                     return True
         return False
+
+    def _ctor_constant(self, cls, attr):
+        """a builder of the constant `self.<attr> = <constant>` of the constructor (None when it is not a constant)"""
+        for c in cls.mro():
+            init = c.methods.get('__init__')
+            if init is None:
+                continue
+            found = None
+            for n in ast.walk(init.node):
+                if isinstance(n, (ast.Assign, ast.AnnAssign)):
+                    targets = n.targets if isinstance(n, ast.Assign) else [n.target]
+                    for t in targets:
+                        if isinstance(t, ast.Attribute) and t.attr == attr and isinstance(t.value, ast.Name) and t.value.id == 'self':
+                            if found is not None:
+                                return None         # assigned more than once: not a plain initial value
+                            found = n.value
+            if found is None:
+                continue
+            if isinstance(found, ast.Constant) and isinstance(found.value, (type(None), bool, int, str)):
+                v = found.value
+                return lambda: v
+            if isinstance(found, ast.List) and not found.elts:
+                return lambda: XList(None, [])
+            if isinstance(found, ast.Dict) and not found.keys:
+                return lambda: {}
+            if isinstance(found, ast.Call) and isinstance(found.func, ast.Name) and found.func.id in ('dict', 'list', 'set') and not found.args and not found.keywords:
+                k = found.func.id
+                return lambda: {} if k == 'dict' else (set() if k == 'set' else XList(None, []))
+            return None
+        return None
 
     def builtin_open(self, args, kwargs):
         self.events.append(('ext', 'open', tuple(args), dict(kwargs)))
